@@ -921,6 +921,11 @@ def m_slice_index(I, a, t, c):
     raise Unsupported('slice index with %r' % (r,))
 
 
+@model('ndarray::impl_methods::<impl ndarray::ArrayBase<S, D>>::iter')
+def m_nd_iter(I, a, t, c):
+    return Agg('iter', 0, [_iter_items(I, a[0]), 0])
+
+
 @model('core::slice::<impl [T]>::iter')
 def m_slice_iter(I, a, t, c):
     cell, path, s, n = _slice(I, a[0])
@@ -933,9 +938,28 @@ def m_slice_len(I, a, t, c):
 
 
 def _iter_items(I, it):
-    it = deref_all(I, it)
+    v = it
+    # a reference (possibly to a view, which is itself a slice reference): iterate element references
+    hops = 0
+    while isinstance(v, RefV) and hops < 4:
+        if v.win is not None:
+            cell, path, s, n = _slice(I, v)
+            return [RefV(cell, path + (s + i,)) for i in range(n)]
+        inner = I.load(v)
+        if isinstance(inner, Agg) and inner.kind == 'array':
+            return [RefV(v.cell, v.path + (i,)) for i in range(len(inner.fields))]
+        if isinstance(inner, Agg) and inner.kind == 'iter':
+            return inner.fields[0][inner.fields[1]:]
+        if isinstance(inner, Agg) and inner.kind == 'adt:std::ops::Range':
+            v = inner
+            break
+        v = inner
+        hops += 1
+    it = v
     if isinstance(it, Agg) and it.kind == 'iter':
         return it.fields[0][it.fields[1]:]
+    if isinstance(it, Agg) and it.kind == 'array':
+        return list(it.fields)
     if isinstance(it, Agg) and it.kind == 'adt:std::ops::Range':
         lo, hi = I.conc(it.fields[0]), I.conc(it.fields[1])
         return [BV(it.fields[0].w, i) for i in range(lo, hi)]
